@@ -17,7 +17,7 @@ CHUNK = 16
 
 def space(tier):
     return {'spatial dims': '{2,3}^d, d=1..3', 'snapshots': [3, 4, 5, 6], 'families': ['generic', 'lowrank2', 'lowrank3', 'snapshot pairs with an eigenvalue 2e-3'], 'threshold': [0, 1e-10, 1e-2],
-            'representation': ['tt-svd', 'overparameterised (sum with zero)', 'uncompressed sum of two trains sharing spatial cores'], 'flags': ['(T,T)', '(F,T)', '(T,F)', '(F,F)']}
+            'representation': ['tt-svd', 'overparameterised (sum with zero)', 'uncompressed sum of two trains sharing spatial cores', 're-gauged then x.ortho() in place'], 'flags': ['(T,T)', '(F,T)', '(T,F)', '(F,F)']}
 
 
 def cases(tier):
@@ -26,12 +26,14 @@ def cases(tier):
         for dims in itertools.product([2, 3] if (q or d == 4) else [2, 3, 4], repeat=d):
             for m in ((3, 4, 5, 6) if q else (3, 4, 5, 6, 8, 10)):
                 for fam, thr in (('generic', 0), ('generic', 1e-10), ('lowrank2', 1e-10), ('lowrank3', 1e-10), ('smalleig', 1e-2), ('smalleig', 1e-10)):
-                    for rep in ('ttsvd', 'over', 'split'):
+                    for rep in ('ttsvd', 'over', 'split', 'orthod'):
                         for fl in ('TT', 'FT', 'TF', 'FF'):
-                            if rep in ('over', 'split') and fl != 'TT':
+                            if rep in ('over', 'split', 'orthod') and fl != 'TT':
                                 continue
                             if rep == 'split' and thr == 0:
                                 continue
+                            if rep == 'orthod' and thr > 1e-6:
+                                continue      # a coarse cut also acts on the spatial bonds, whose spectra depend on the gauge
                             yield {'dims': list(dims), 'm': m, 'fam': fam, 'thr': thr, 'rep': rep, 'fl': fl}
 
 
@@ -89,6 +91,17 @@ def run_case(case, seed):
             a = TT([c_.copy() for c_ in t.cores[:-1]] + [sa]); b = TT([c_.copy() for c_ in t.cores[:-1]] + [t.cores[-1] - sa])
             return a + b
         x = split(x); y = split(y)
+    if case['rep'] == 'orthod':
+        # call history on the data objects: re-gauged from outside, then left- and right-orthonormalised in place (x.ortho()),
+        # before the routine is called with its default flags
+        def regauge(t):
+            cs = [c_.copy() for c_ in t.cores]
+            for i in range(len(cs) - 1):
+                k_ = cs[i].shape[3]
+                G = rng.standard_normal((k_, k_)) + 3 * np.eye(k_)
+                cs[i] = np.tensordot(cs[i], G, axes=(3, 0)); cs[i + 1] = np.tensordot(np.linalg.inv(G), cs[i + 1], axes=(1, 0))
+            t2 = TT(cs); t2.ortho(); return t2
+        x = regauge(x); y = regauge(y)
     ol, orr = case['fl'][0] == 'T', case['fl'][1] == 'T'
     if not ol:
         x.ortho_left(end_index=x.order - 3)            # TT(array) already is left-orthonormal; harmless and explicit
